@@ -219,8 +219,8 @@ fn line_infos(text: &str, tab_spaces: usize) -> Vec<LineInfo> {
             if is_line && t.hi == end {
                 comment_line = true;
             }
-            if t.kind == TK::RawIdent && t.lo >= start && t.lo < end {
-                // `r#name` is taken for the start of a raw string
+            if (t.kind == TK::RawIdent || (t.kind == TK::Lifetime && t.text(text).contains("r#"))) && t.lo >= start && t.lo < end {
+                // `r#name` (also in a raw lifetime `'r#name`) is taken for the start of a raw string
                 fuzzy = fuzzy.or(Some("raw-identifier-taken-for-string"));
             }
             if t.kind.is_string_like() {
